@@ -74,6 +74,7 @@ def amax(
         a, graded=options["sort_graded"], reverse=options["sort_reverse"]
     )
     indices = numpy.amax(proxy, axis=axis, **kwargs)
-    out = a[numpy.isin(proxy, indices)]
-    out = out[numpy.argsort(indices.ravel())]
+    # proxy is a permutation: look up where each selected rank is located.
+    position = numpy.argsort(proxy.ravel())
+    out = a.ravel()[position[indices.ravel()]]
     return numpoly.reshape(out, indices.shape)
